@@ -328,10 +328,16 @@ func (w *vrWorld) c13Generated() {
 			w.storeSec(w.poolRoot())
 		default:
 			// probe some superseded contract again
-			for id := range w.supers {
+			var sup []types.FileContractID
+			for _, id := range append(append([]types.FileContractID(nil), w.order1...), w.order2...) {
+				if w.supers[id] {
+					sup = append(sup, id)
+				}
+			}
+			if len(sup) > 0 {
+				id := sup[rng.Intn(len(sup))]
 				_, v2 := w.v2[id]
 				w.predecessorRefuses(id, v2)
-				break
 			}
 		}
 	}
